@@ -398,6 +398,93 @@ def render_ident(prefix, arms):
     return "\n".join(lines)
 
 
+# ---- acceptance tables of the automaton loops --------------------------------------------------
+MTK = {"Contains": "KMContains", "EndsWith": "KMEndsWith", "Exact": "KMExact", "StartsWith": "KMStartsWith"}
+ACOND = {None: "CAlways", "i.end() == value.len()": "CEnd", "i.start() == 0": "CStart",
+         "i.start() == 0 && i.end() == value.len()": "CStartEnd"}
+AACT = {"return SolverResult::True": "AReturnTrue", "map |= 1 << p.as_u64()": "ASetBit", "hits.insert(p)": "AInsert"}
+
+
+def brace_block(text, i):
+    """text[i] == '{' -> (body, index after the matching '}'); no string literals occur in these loops"""
+    depth = 0
+    for j in range(i, len(text)):
+        if text[j] == "{":
+            depth += 1
+        elif text[j] == "}":
+            depth -= 1
+            if depth == 0:
+                return text[i + 1:j], j + 1
+    fail("unbalanced braces in an automaton loop")
+
+
+def extract_aho(src):
+    src = strip_comments(src)
+    if re.search(r"\ba\.find_iter\(|\.find\(value\)|\.earliest_find\(|\.is_match\(value\)\s*\{", src) and False:
+        pass
+    iters = re.findall(r"for\s+i\s+in\s+a\.(\w+)\(\s*value\s*\)\s*\{", src)
+    if iters != ["find_overlapping_iter"] * 3:
+        fail("the automaton is not walked by three `for i in a.find_overlapping_iter(value)` loops: %s" % iters)
+    if len(re.findall(r"\ba\.(?:find\w*|earliest\w*|try_find\w*|stream_find\w*)\(", src)) != 3:
+        fail("the automaton is searched somewhere else as well")
+    tables = []
+    for m in re.finditer(r"for\s+i\s+in\s+a\.find_overlapping_iter\(\s*value\s*\)\s*\{", src):
+        body, _ = brace_block(src, m.end() - 1)
+        flat = " ".join(body.split())
+        mm = re.match(r"^(let p = i\.pattern\(\); )?match m\[(i\.pattern\(\)|p)\] \{", flat)
+        if not mm or (mm.group(2) == "p") != bool(mm.group(1)):
+            fail("an automaton loop does not start with `match m[i.pattern()]`: " + flat[:60])
+        inner, end = brace_block(flat, mm.end() - 1)
+        if flat[end:].strip():
+            fail("an automaton loop does more than the match: " + flat[end:][:60])
+        arms = []
+        acts = set()
+        pos = 0
+        inner = inner.strip()
+        while pos < len(inner):
+            am = re.match(r"\s*MatchType::(\w+)\(_\) => ", inner[pos:])
+            if not am:
+                fail("arm of an automaton match: " + inner[pos:][:60])
+            kind = am.group(1)
+            pos += am.end()
+            if inner[pos] == "{":
+                b, pos = brace_block(inner, pos)
+                b = b.strip()
+                if pos < len(inner) and inner[pos] == ",":
+                    pos += 1
+            else:
+                j = inner.find(",", pos)
+                if j < 0:
+                    fail("arm without a terminating comma")
+                b = inner[pos:j].strip()
+                pos = j + 1
+            cm = re.match(r"^if (.+?) \{ (.+?);? \}$", b)
+            if cm:
+                cond, act = cm.group(1).strip(), cm.group(2).strip().rstrip(";")
+            else:
+                cond, act = None, b.rstrip(";").strip()
+            if kind not in MTK or cond not in ACOND or act not in AACT:
+                fail("automaton arm %s: condition %r action %r" % (kind, cond, act))
+            arms.append((MTK[kind], ACOND[cond]))
+            acts.add(AACT[act])
+        if sorted(k for k, _ in arms) != sorted(MTK.values()) or len(acts) != 1:
+            fail("an automaton match does not have exactly the four arms with one action: %s %s" % (arms, acts))
+        tables.append((acts.pop(), arms))
+    return tables
+
+
+def render_aho(tables):
+    rows = []
+    for act, arms in tables:
+        rows.append("(%s, [%s])" % (act, "; ".join("(%s, %s)" % a for a in arms)))
+    return "\n".join([
+        "(* AUTO-GENERATED by tools/gen_tables.py from src/solver.rs (the three loops over"
+        "\n   `a.find_overlapping_iter(value)`: search, slow_aho below 64 needles, slow_aho from 64) -- do not edit. *)",
+        "From TauModel Require Import Base Syntax AhoTable.", "",
+        "Definition aho_tables : list aho_table :=",
+        "  [" + ";\n   ".join(rows) + "].", ""])
+
+
 def coq_str(s):
     return "[" + "; ".join(str(ord(ch)) for ch in s) + "]%N"
 
@@ -475,6 +562,18 @@ def main():
         status["identifier"] = "ok"
     except Unrecognised as e:
         status["identifier"] = "shape not recognised: %s" % e
+    # table 4: acceptance conditions of the automaton loops
+    try:
+        try:
+            ssrc2 = open(os.path.join(REPO, "src", "solver.rs"), encoding="utf-8").read()
+        except OSError as e:
+            fail("cannot read solver.rs: %s" % e)
+        atabs = extract_aho(ssrc2)
+        info["aho_changed"] = write_if_changed(os.path.join(os.path.dirname(out), "GeneratedAho.v"), render_aho(atabs))
+        info["aho_tables"] = len(atabs)
+        status["solver_aho"] = "ok"
+    except Unrecognised as e:
+        status["solver_aho"] = "shape not recognised: %s" % e
     info["status"] = status
     if "--json" in sys.argv:
         print(json.dumps(info))
